@@ -2215,7 +2215,7 @@ func TestVerifC22(t *testing.T) {
 		wg.Wait()
 	})
 	// one case = a batch of executions that run side by side (an execution mostly waits for the services' timers)
-	r.Cases("sim", r.Scale(13), func(c *vcommon.Case) {
+	r.Cases("sim", r.Scale(15), func(c *vcommon.Case) {
 		var wg sync.WaitGroup
 		for k := 0; k < c22Batch; k++ {
 			p := c22GenParams(c, r.Thorough())
